@@ -235,7 +235,16 @@ var c20AllTypes = []evdev.EvType{evdev.EV_SYN, evdev.EV_KEY, evdev.EV_REL, evdev
 
 func genC20(t *rapid.T) C20Case {
 	n := rapid.IntRange(1, 10).Draw(t, "handlers")
-	physPool := []string{"usb-0000:00:14.0-1/input0", "usb-0000:00:14.0-2/input0", "", "bluetooth/aa:bb"}[:rapid.IntRange(1, 4).Draw(t, "physPool")]
+	// locations that differ only in ways a "normalising" grouping key would erase: interface suffix, letter case,
+	// trailing blank, a common prefix; plus the empty location
+	allPhys := []string{"usb-0000:00:14.0-1/input0", "usb-0000:00:14.0-2/input0", "", "bluetooth/aa:bb", "usb-0000:00:14.0-1/input1",
+		"USB-0000:00:14.0-1/input0", "usb-0000:00:14.0-1/input0 ", "usb-0000:00:14.0-1", "usb-0000:00:14.0-10/input0"}
+	order := rapid.Permutation(indices(len(allPhys))).Draw(t, "physOrder")
+	nPhys := rapid.IntRange(1, 5).Draw(t, "physPool")
+	physPool := make([]string, nPhys)
+	for i := range physPool {
+		physPool[i] = allPhys[order[i]]
+	}
 	ids := map[string][4]uint16{}
 	var c C20Case
 	for i := 0; i < n; i++ {
